@@ -127,6 +127,19 @@ example :
     (run w {} (rs.map .req)).groups = idealRun w fixedResolverAddr 0 [] rs := by
   decide +kernel
 
+/-- the hypotheses of `C18_transparent_partial` are met by concrete calls: a plain call, a
+    streaming call, a oneway call and the redirected `GetInfo` -/
+example :
+    Good (exWorld false) (rq "a.b.M") ∧ Good (exWorld false) { rq "a.b.More" with more := some true } ∧
+    Good (exWorld false) { rq "a.b.M" with oneway := some true } ∧
+    Good (exWorld false) (rq "org.varlink.service.GetInfo") ∧ StaticResolver (exWorld false) := by
+  refine ⟨⟨"a.b", "A", exSvc "A", ?_, ?_, ?_, rfl, ?_⟩, ⟨"a.b", "A", exSvc "A", ?_, ?_, ?_, rfl, ?_⟩,
+    ⟨"a.b", "A", exSvc "A", ?_, ?_, ?_, rfl, ?_⟩,
+    ⟨"org.varlink.resolver", fixedResolverAddr, exResolverSvc, ?_, ?_, ?_, rfl, ?_⟩, fun _ _ _ => rfl⟩
+  all_goals first
+    | (unfold Final; decide +kernel)
+    | decide +kernel
+
 /-- **dropped hypothesis: the interface resolves** — after an unknown interface the
     bridge *returns* (exit status 0) instead of continuing: the next request is never read -/
 theorem C18_unknown_interface_counterexample :
